@@ -18,6 +18,47 @@ ASSUMPTIONS = [
 ]
 
 
+def _twins(ctx):
+    """one version in two spellings under a lower and an upper bound (`<1.2|>=0:1.2`): such a list names one version twice,
+    so validation refuses it; where it does not, the range and its inverse both hold every version -- the complement law
+    fails on a range that validation calls well-formed"""
+    from harness import schemes as S, layerb as B
+    from univers.version_constraint import VersionConstraint
+    for name in S.ALL:
+        rng = ctx.rng("c09-twins", name)
+        pool = B.Bench(name, rng, size=14, need_hash=False, respell=0.7).pool
+        R = S.rclass(name) or B._generic_range_for(S.vclass(name))
+        done = 0
+        for cl in pool.classes:
+            if len(cl) < 2 or done >= 6:
+                continue
+            (t1, v1), (t2, v2) = cl[0], cl[1]
+            done += 1
+            for c1, c2 in (("<", ">="), ("<=", ">"), (">=", "<")):
+                cons = [VersionConstraint(comparator=c1, version=v1), VersionConstraint(comparator=c2, version=v2)]
+                ctx.count("twins:" + name, key=(c1 + t1, c2 + t2), nontrivial=True)
+                try:
+                    VersionConstraint.validate(list(cons))
+                except Exception:  # noqa: BLE001 — refused: as it should be
+                    continue
+                if name == "maven":
+                    continue        # K09: validation accepts maven twins (hash of the text), recorded
+                try:
+                    r = R(constraints=cons)
+                    inv = r.invert()
+                    both = [(t, (v in r), (v in inv)) for t, v in ((t1, v1), (t2, v2))]
+                except Exception:  # noqa: BLE001
+                    continue
+                bad = [b for b in both if b[1] == b[2]]
+                if bad:
+                    ctx.disagree("twins:" + name, "%s%s|%s%s" % (c1, t1, c2, t2), "validation accepts it; %s is in the range: %s, in its inverse: %s" % bad[0],
+                                 "refused, or complemented", True,
+                                 {"scheme": name, "constraints": [c1 + t1, c2 + t2], "inverse": str(inv),
+                                  "clause": "a range that validation accepts holds a version together with its inverse (or neither does)"},
+                                 spec="refused, or complemented")
+                    break
+
+
 def _extra_fields_survive(ctx):
     """"inverting it again gives back a range equal to the original": also for a range class that carries more than its
     constraints (an attrs field a subclass adds): whatever the class compares in `==` must come back after two inversions"""
@@ -58,6 +99,7 @@ def _extra_fields_survive(ctx):
 
 def correspondence(ctx):
     _extra_fields_survive(ctx)
+    _twins(ctx)
     L = 6 if ctx.thorough else (5 if ctx.deepen else 4)
     jobs = []
     for n in range(1, L + 1):
